@@ -114,6 +114,11 @@ theorem switch_keeps_cache_bounded (s : Sess) (pool : String) (cb : Option Nat) 
     | none => exact h
     | some p =>
       simp only
+      by_cases hmm : (findDest s (pool, "acct" ++ pool ++ ".w" ++ pool)).isNone ∧ s.vr ∧ p.mask ≠ s.negMask
+      · -- the pool grants another mask: its connection is closed again, the cache is untouched
+        rw [if_pos hmm]
+        simpa [setPool] using h
+      rw [if_neg hmm]
       have hacq := acquire_le s pool p ("acct" ++ pool ++ ".w" ++ pool)
       cases hr : resend (acquire s pool p ("acct" ++ pool ++ ".w" ++ pool)).2.1 with
       | none =>
